@@ -204,6 +204,27 @@ def build_chm(entries, leaves, style="set", wrap=None, falses=()):
             for _, a, _ in items:
                 done.add(a)
     rest = [(a, v) for a, v in ents if a not in done]
+    if style == "nested" and rest:
+        # hierarchical construction: entries grouped by their first component, the
+        # group's sub-map built recursively and attached with one entry() call, so
+        # that unions (Or nodes) sit *below* index levels
+        def nest(items):
+            groups = {}
+            order = []
+            for a, v in items:
+                if not a:
+                    return ChoiceMap.choice(wrapv(v))
+                if a[0] not in groups:
+                    groups[a[0]] = []
+                    order.append(a[0])
+                groups[a[0]].append((a[1:], v))
+            acc = ChoiceMap.empty()
+            for k in order:
+                acc = acc | ChoiceMap.entry(nest(groups[k]), k)
+            return acc
+
+        chm = chm | nest(rest)
+        rest = []
     if style == "dict" and rest and all(a and all(isinstance(c, str) for c in a) for a, _ in rest):
         d = {}
         for a, v in rest:
